@@ -7,7 +7,37 @@ TABLE_ASSUME = [
 
 PROPS = {}
 
+PBT = "property-based testing (rapidcheck generators + explicit oracle, fork-isolated cases under ASan/UBSan, text-level shrinking to a replay file)"
+TRUST = ("Trusted base: the harness's reference model / independent codec, the system compression libraries, clang's "
+         "sanitizers. The library is compiled directly from /repo's working tree with clang (not via autotools), asserts on.")
+
+MANIFEST_META = {
+    "hooks": {
+        "guard": "MTBL_VERIF",
+        "enable": ("the checks compile the library sources of /repo's working tree directly with clang and -DMTBL_VERIF (no "
+                   "autotools build); per-file command-line renames (-Dwrite=, -Dmkstemp=, -Dclock_gettime=, -Dmmap=, pthread "
+                   "shim) need no source change"),
+        "baseline_off_cmd": "make -C /repo check",
+        "source_commits": [],
+        "add_only": True,
+    },
+    "engines": [
+        {"name": "rapidcheck", "path": "/usr/include/rapidcheck.h",
+         "kind_free_text": ("property-based generator (rapidcheck 'gen' combinators used imperatively inside rc::check); failures "
+                            "are shrunk by the harness's own text-level delta debugger (harness/vf.h shrink_text) and replayed "
+                            "without the library")},
+    ],
+    "notes": "Driver: ./vf <id> --tier quick|thorough. Design and per-property detail: DESIGN.md. Mutant self-test: ./selftest.",
+    "pending_reason": {},
+}
+
 PROPS["C01"] = {
+    "manifest": {
+        "level_text": ("Generated-input search: thousands of (table, configuration) cases per run, each written with the real "
+                       "writer and compared element-wise with what the real reader and mtbl_dump -x return. Finds violations; "
+                       "does not prove their absence."),
+        "level_note": TRUST, "technique": PBT + "; round-trip oracle against a std::map model",
+    },
     "src": "props/C01.cpp", "tools": True, "tool_bins": True,
     "level": "exploration",
     "rule": ("rapidcheck-generated (table, writer configuration, mtbl_dump filter) cases: adversarial key shapes "
@@ -25,4 +55,72 @@ PROPS["C01"] = {
         "quick": [{"mode": "rc", "cases": 400, "max_size": 100}],
         "thorough": [{"mode": "rc", "cases": 12000, "max_size": 100}],
     },
+}
+
+WRITER_TIERS = {
+    "quick": [{"mode": "rc", "cases": 400, "max_size": 100}],
+    "thorough": [{"mode": "rc", "cases": 12000, "max_size": 100}],
+}
+
+PROPS["C08"] = {
+    "manifest": {
+        "level_text": ("Generated histories of add calls (stateful, model-based): the model predicts accept/refuse for every call "
+                       "and the final content; exclusive-create is exercised on generated pre-existing targets. Exploration, not proof."),
+        "level_note": TRUST, "technique": PBT + "; model-based history testing (accept/refuse model + content read back two ways)",
+    },
+    "src": "props/C08.cpp",
+    "level": "exploration",
+    "rule": ("rapidcheck-generated histories of mtbl_writer_add calls whose keys are derived from the last accepted key "
+             "(grow, bump a byte, equal, proper prefix, just below, far smaller, flip across 0x7f/0x80, successor) with values "
+             "sized so that a block is cut every few adds; oracle: add succeeds iff first or key > last accepted (unsigned, "
+             "prefix first); finished file (reader AND independent decoder) holds exactly the accepted entries; 30% of cases "
+             "also call mtbl_writer_init on a pre-existing path (empty file, content, valid table, read-only, directory, "
+             "symlink) which must return NULL and leave inode/size/mtime/bytes unchanged. Non-trivial: >= 1 refusal and "
+             ">= 2 data blocks in the same history; distinct by FNV-1a of the serialised case."),
+    "expect_tags": ["has_refusal", "multi_block", "refusal_right_after_block_cut", "preexisting_target"],
+    "assumptions": TABLE_ASSUME,
+    "tiers": WRITER_TIERS,
+}
+PROPS["C09"] = {
+    "manifest": {
+        "level_text": ("Translation validation of writer output: every file produced in the run is re-decoded by an independent "
+                       "implementation of the format and checked clause by clause against the C09 statement; 'programs' = files "
+                       "validated, 'disagreements_checked' = blocks structurally validated. Says nothing about inputs not generated."),
+        "level_note": TRUST + " The decoder's reading of the format is cross-checked on the checked-in v1 sample files (C11).",
+        "technique": PBT + "; translation validation with an independent format decoder as the oracle",
+    },
+    "src": "props/C09.cpp",
+    "level": "translation_validation",
+    "rule": ("every generated writer run (C01's tables x configurations, and C08's add histories) is one 'program'; its output "
+             "file is decoded by an independent decoder (harness/refcodec.h: own varint/fixed/CRC32C, system compression "
+             "libraries) and every clause of the C09 statement is checked: prefix untouched, contiguous blocks, minimal "
+             "length varints, CRC field = reference CRC of stored bytes, one index entry per block with value = minimal "
+             "varint of the block offset and last_i <= key_i < first_{i+1}, 512-byte zero-padded trailer with magic, restart "
+             "array (first 0, strictly increasing, exactly every R entries, shared=0 there, shared=LCP elsewhere, minimal "
+             "varints), size rule in both directions, decoded content = accepted entries. Non-trivial: >= 2 data blocks or a "
+             "non-default configuration."),
+    "expect_tags": ["multi_block", "index_multi_restart", "block_multi_restart", "oversize_single_entry_block",
+                    "has_refused_adds", "foreign_prefix", "pooled", "empty_table"],
+    "assumptions": TABLE_ASSUME + ["the independent decoder in harness/refcodec.h implements the documented format"],
+    "tiers": WRITER_TIERS,
+    "evidence_extra": {
+        "programs": lambda t: t["counters"].get("programs", 0),
+        "disagreements_checked": lambda t: t["counters"].get("blocks_validated", 0),
+    },
+}
+PROPS["C10"] = {
+    "manifest": {
+        "level_text": ("Differential check: the ten metadata accessors and mtbl_info's printed numbers against quantities measured on "
+                       "the file by an independent decoder, over generated tables/add histories. Exploration, not proof."),
+        "level_note": TRUST, "technique": PBT + "; differential oracle (independent decoder measurements vs. trailer statistics)",
+    },
+    "src": "props/C10.cpp", "tools": True, "tool_bins": True,
+    "level": "exploration",
+    "rule": ("C01 tables and C08 add histories (refused adds, empty table, foreign prefixes, pooled writers); the truth is "
+             "measured on the output file by the independent decoder (and cross-checked against the model of accepted adds); "
+             "compared with all ten mtbl_metadata_* accessors and with the parsed output of mtbl_info (LC_ALL=C). "
+             "Non-trivial: >= 2 data blocks, or refused adds, or a foreign prefix, or a pooled writer, or the empty table."),
+    "expect_tags": ["multi_block", "has_refused_adds", "foreign_prefix", "pooled", "empty_table", "clamped_block_size"],
+    "assumptions": TABLE_ASSUME,
+    "tiers": WRITER_TIERS,
 }
